@@ -36,6 +36,8 @@ func main() {
 		os.Exit(cmdFunc(os.Args[2:]))
 	case "list":
 		os.Exit(cmdList(os.Args[2:]))
+	case "symbols":
+		os.Exit(cmdSymbols(os.Args[2:]))
 	}
 	fmt.Fprintln(os.Stderr, "unknown command")
 	os.Exit(2)
